@@ -438,6 +438,7 @@ class PluginEnv:
     asked: List[str] = []
     written: Dict[str, str] = {}
     write_log: List[str] = []
+    capture_writes = False
 
 
 _plugin_installed = False
@@ -486,7 +487,9 @@ def install_plugin_shims():
 
     def fake_open(name, mode="r", *a, **k):
         if mode == "bw":
-            return _FakeFile(name)
+            if PluginEnv.capture_writes:
+                return _FakeFile(name)
+            PluginEnv.write_log.append(str(name))  # real write (project files are restored at the next session start)
         return builtins.open(name, mode, *a, **k)
 
     RC.open = fake_open
@@ -507,6 +510,7 @@ class PluginResult:
         self.texts = {}
         self.root = None
         self.pending = {}
+        self.storage = []
 
 
 def project_dir(files: Dict[str, str], extra: Optional[Dict[str, str]] = None) -> pathlib.Path:
@@ -533,7 +537,7 @@ def make_config(root, cli, nproc=None):
 
 
 def plugin_session(files, *, cli=None, env_flags=None, tty=False, ci_var=None, pycharm=False, nproc=None, answers=(),
-                   xfail=(), pyproject=None, extra_globals=None, body_hook=None) -> PluginResult:
+                   xfail=(), pyproject=None, extra_globals=None, body_hook=None, storage_files=None, shortcut_args=None) -> PluginResult:
     """D-plugin: real pytest_configure -> (real autouse fixture around every test_* function) -> real
     pytest_sessionfinish, with stub config/request/session objects.  File writes are captured in memory."""
     import pytest
@@ -567,10 +571,48 @@ def plugin_session(files, *, cli=None, env_flags=None, tty=False, ci_var=None, p
             os.environ["PYCHARM_HOSTED"] = "1"
         if env_flags is not None:
             os.environ["INLINE_SNAPSHOT_DEFAULT_FLAGS"] = env_flags
+    if shortcut_args is not None:
+        # the real pytest_addoption registers the shortcuts of pyproject.toml; a real argparse parser resolves them
+        import argparse
+
+        import inline_snapshot.pytest_plugin as P0
+
+        ap = argparse.ArgumentParser()
+
+        class _Group:
+            def addoption(self, *names, **attrs):
+                ap.add_argument(*names, **attrs)
+
+        class _Parser:
+            def getgroup(self, name):
+                return _Group()
+
+        cwd0 = os.getcwd()
+        os.chdir(root)
+        try:
+            P0.pytest_addoption(_Parser(), None)
+        finally:
+            os.chdir(cwd0)
+        cli = ap.parse_args(list(shortcut_args)).inline_snapshot
     cfg = make_config(root, cli, nproc)
     cwd = os.getcwd()
     os.chdir(root)
+    with NoTracing():
+        import shutil
+
+        shutil.rmtree(root / ".inline-snapshot", ignore_errors=True)  # project dirs are reused across paths
+        for name_, text_ in files.items():  # ... and so are the files: restore what an earlier path rewrote
+            p_ = root / name_
+            b_ = str(text_).encode("utf-8")
+            if p_.read_bytes() != b_:
+                p_.write_bytes(b_)
+        if storage_files:
+            d = root / ".inline-snapshot" / "external"
+            d.mkdir(parents=True)
+            for n_, data in storage_files.items():
+                (d / n_).write_bytes(data)
     configured = False
+    registered: List[str] = []
     try:
         try:
             P.pytest_configure(cfg)
@@ -590,7 +632,14 @@ def plugin_session(files, *, cli=None, env_flags=None, tty=False, ci_var=None, p
                     continue
                 path = root / fname
                 res.paths[fname] = path
-                g = {"__name__": fname[:-3].replace("/", "."), "__file__": str(path)}
+                # a real module object in sys.modules (inspect.getmodule must find it: files_with_snapshots)
+                with NoTracing():
+                    modname = "verif_" + root.name + "_" + fname[:-3].replace("/", "_")
+                    module = types.ModuleType(modname)
+                    module.__file__ = str(path)
+                    sys.modules[modname] = module
+                    registered.append(modname)
+                g = module.__dict__
                 g.update(W.ns)
                 if extra_globals:
                     g.update(extra_globals)
@@ -639,9 +688,19 @@ def plugin_session(files, *, cli=None, env_flags=None, tty=False, ci_var=None, p
         with NoTracing():
             os.environ.clear()
             os.environ.update(saved_env)
-    for name, path in res.paths.items():
-        if str(path) in PluginEnv.written:
-            res.written[name] = PluginEnv.written[str(path)]
+            for m_ in registered:
+                sys.modules.pop(m_, None)
+            d_ = root / ".inline-snapshot" / "external"
+            res.storage = sorted(p.name for p in d_.iterdir() if p.name != ".gitignore") if d_.exists() else []
+    with NoTracing():
+        for name, path in res.paths.items():
+            if str(path) in PluginEnv.written:
+                res.written[name] = PluginEnv.written[str(path)]
+            else:
+                now = path.read_bytes().decode("utf-8")
+                if now != str(files[name]):
+                    res.written[name] = now
+        res.write_log = list(PluginEnv.write_log)
     res.printed = list(NullConsole.printed)
     return res
 
